@@ -3,6 +3,7 @@
 package main
 
 import (
+	"errors"
 	"net"
 
 	"github.com/go-kit/log"
@@ -35,9 +36,13 @@ func (s *vhRecSession) Close() error { s.closed = true; return nil }
 
 type vhRecManager struct {
 	sessions map[string]*vhRecSession
+	fail     string // sessions to this peer cannot be started
 }
 
 func (m *vhRecManager) NewSession(_ log.Logger, args bgp.SessionParameters) (bgp.Session, error) {
+	if m.fail != "" && args.SessionName == m.fail {
+		return nil, errors.New("injected: session cannot be started")
+	}
 	s := &vhRecSession{name: args.SessionName}
 	m.sessions[args.SessionName] = s
 	return s, nil
@@ -197,10 +202,29 @@ func VerifBGPRoutes(nadv, step, npeers int) {
 	case 2:
 		svcs[0].ips = []net.IP{{10, 0, 1, vr.Byte()}}
 		vr.Assert(c.SetBalancer(log.NewNopLogger(), svcs[0].name, svcs[0].ips, pool, nil, nil) == nil, "SetBalancer failed")
+	case 3:
+		// two more peers are configured while the service is announced; the session to one of them
+		// (symbolic, possibly none) cannot be started
+		cfg2 := &config.Config{Peers: map[string]*config.Peer{}}
+		for n, p := range cfg.Peers {
+			cfg2.Peers[n] = p
+		}
+		for i := npeers; i < npeers+2; i++ {
+			n := []string{"peer0", "peer1", "peer2", "peer3"}[i]
+			cfg2.Peers[n] = &config.Peer{Name: n, MyASN: 64512, ASN: uint32(64600 + i), Addr: net.IP{192, 168, 1, byte(1 + i)}, Port: 179}
+			peerNames = append(peerNames, n)
+		}
+		rec.fail = []string{"", peerNames[npeers], peerNames[npeers+1]}[vr.Choose(3)]
+		err := c.SetConfig(log.NewNopLogger(), cfg2)
+		vr.Assert((err != nil) == (rec.fail != ""), "SetConfig must report a session that cannot be started (and only that)")
 	}
 	// oracle per peer
 	for pi, pn := range peerNames {
 		sess := rec.sessions[pn]
+		if pn == rec.fail {
+			vr.Assert(sess == nil, "a session exists although it could not be started")
+			continue
+		}
 		vr.Assert(sess != nil && !sess.closed, "no live session for a configured peer")
 		if sess == nil {
 			continue
